@@ -450,17 +450,20 @@ func runMconnSearch(r *vk.Run, c *mcCfg) vk.Result {
 func phaseMconn(r *vk.Run) {
 	var cfgs []*mcCfg
 	two, three := []byte{0x01, 0x02}, []byte{0x01, 0x02, 0x30}
-	small := []int{1, 3, 4, 5, 12} // 1, max-1, max, max+1, 3*max for payload 4
+	small := []int{1, 3, 4, 5, 12}              // 1, max-1, max, max+1, 3*max for payload 4
+	big := []int{1, 32767, 32768, 32769, 98304} // the same five sizes for the default payload 32768
 	if r.Quick() {
 		cfgs = []*mcCfg{
-			{name: "2ch(1,1),payload4", chIDs: two, prios: []int{1, 1}, payload: 4, queueCap: 2, sizes: small, depth: 6, partial: true},
 			{name: "2ch(1,10),payload4", chIDs: two, prios: []int{1, 10}, payload: 4, queueCap: 2, sizes: small, depth: 6, partial: true, stats: true},
+			{name: "2ch(1,1),payload4", chIDs: two, prios: []int{1, 1}, payload: 4, queueCap: 2, sizes: small, depth: 5, partial: true},
+			{name: "2ch(1,10),payload32768", chIDs: two, prios: []int{1, 10}, payload: 32768, queueCap: 2, sizes: big, depth: 4, partial: true},
 		}
 	} else {
 		cfgs = []*mcCfg{
-			{name: "2ch(1,1),payload4", chIDs: two, prios: []int{1, 1}, payload: 4, queueCap: 2, sizes: small, depth: 8, partial: true, stats: true},
-			{name: "2ch(1,10),payload4", chIDs: two, prios: []int{1, 10}, payload: 4, queueCap: 2, sizes: small, depth: 8, partial: true, stats: true},
-			{name: "3ch(1,5,10),payload4", chIDs: three, prios: []int{1, 5, 10}, payload: 4, queueCap: 2, sizes: small, depth: 7, partial: true},
+			{name: "2ch(1,10),payload4", chIDs: two, prios: []int{1, 10}, payload: 4, queueCap: 2, sizes: small, depth: 7, partial: true, stats: true},
+			{name: "2ch(1,1),payload4", chIDs: two, prios: []int{1, 1}, payload: 4, queueCap: 2, sizes: small, depth: 7, partial: true, stats: true},
+			{name: "3ch(1,5,10),payload4", chIDs: three, prios: []int{1, 5, 10}, payload: 4, queueCap: 2, sizes: small, depth: 6, partial: true},
+			{name: "2ch(1,10),payload32768", chIDs: two, prios: []int{1, 10}, payload: 32768, queueCap: 2, sizes: big, depth: 5, partial: true},
 		}
 	}
 	var per []interface{}
